@@ -376,6 +376,39 @@ def _returns_as_breaks(stmts: list) -> list:
     return res_
 
 
+def _escapes_in_body(body: list, name: str) -> bool:
+    """Is `name` both CHANGED IN PLACE by the loop body (add / discard / remove / update / append / pop / clear, an augmented assignment) and handed
+    to a call as an argument in that body?"""
+    mutated = False
+    passed = False
+
+    def _log_stmt(x):
+        return isinstance(x, ast.Expr) and isinstance(x.value, ast.Call) and (
+            (isinstance(x.value.func, ast.Attribute) and x.value.func.attr in ("debug", "info", "warning", "error", "exception", "critical", "log", "warn"))
+            or (isinstance(x.value.func, ast.Name) and x.value.func.id == "print"))
+
+    def _walk(x):
+        # the arguments of a logging / print statement are looked at by nobody
+        if _log_stmt(x):
+            return
+        yield x
+        for ch in ast.iter_child_nodes(x):
+            yield from _walk(ch)
+
+    for st in body:
+        for n in _walk(st):
+            if isinstance(n, ast.Call):
+                if isinstance(n.func, ast.Attribute) and isinstance(n.func.value, ast.Name) and n.func.value.id == name \
+                        and n.func.attr in ("add", "discard", "remove", "update", "append", "extend", "pop", "clear", "difference_update", "intersection_update", "insert"):
+                    mutated = True
+                for a_ in list(n.args) + [k.value for k in n.keywords]:
+                    if isinstance(a_, ast.Name) and a_.id == name:
+                        passed = True
+            if isinstance(n, ast.AugAssign) and isinstance(n.target, ast.Name) and n.target.id == name:
+                mutated = True
+    return mutated and passed
+
+
 def _tests_read_name(body: list, name: str) -> bool:
     """Does the loop body decide by MEMBERSHIP IN THE SET IT IS FILLING whether to add OTHER elements to it?
     (`if s not in seen: seen.update(f(s))`, `if n in rv: rv |= preds(n)`).  Whether a later element passes the test then depends on what earlier
@@ -1278,6 +1311,15 @@ class Evaluator:
             if st2 is not None:
                 # `for v in d.values(): v.discard(x)`  is  `for k in d: d[k].discard(x)`: the modification is then an effect on d itself
                 return self.exec_for(st2, state, func)
+        carried = [n_ for n_ in state.env if _escapes_in_body(st.body, n_)]
+        if carried:
+            # a collection the body changes in place AND hands to another routine: what that routine sees in iteration k is the result of
+            # iterations 1..k-1 (loop-carried state).  The evaluator reads a body once, for a generic element, from the state at loop entry;
+            # that reading is wrong here, so the collection is not known inside (and after) the loop
+            state = state.fork()
+            for n_ in carried:
+                state.env[n_] = unknown(f"loop-carried-argument:{n_}", st.lineno)
+                self.unknowns.append((func.qname, st.lineno, f"loop-carried-argument:{n_}"))
         for s0, it in self.eval(st.iter, state, func):
             outs.extend(self._exec_for_over(st, s0, it, func))
         if roots:
@@ -3175,13 +3217,14 @@ class Evaluator:
 
     def _normalise_precomputed(self, f: Func, b: dict[str, Term]) -> dict[str, Term]:
         """An optional argument the callee would compute itself.  `def f(x, *, g=None): ...; if g is None: g = E(x); ...` lets a caller hand over
-        E(x) computed once (hoisted out of a loop).  When the value a call passes for `g` is exactly what the callee's own straight-line prefix
-        computes for `g is None` on the same arguments, the call is the call with g=None; otherwise it is left as written."""
+        E(x) computed once (hoisted out of a loop).  The call with g=None (given or defaulted) IS the call with g = E(x): the canonical form of a
+        call of a primitive carries the value the callee's own straight-line prefix computes for `g is None` on the same arguments, so
+        f(x), f(x, g=None) and f(x, g=E(x)) are one term; any other value is left as written."""
         a = f.node.args
         pos = a.posonlyargs + a.args
         defaults = [None] * (len(pos) - len(a.defaults)) + list(a.defaults)
         opt = {p.arg for p, d in list(zip(pos, defaults)) + list(zip(a.kwonlyargs, a.kw_defaults)) if isinstance(d, ast.Constant) and d.value is None}
-        cand = [p for p in opt if p in b and b[p] != NONE]
+        cand = [p for p in opt if b.get(p) == NONE]
         if not cand or getattr(self, "_in_precomputed", False):
             return b
         body = [st for st in f.node.body if not (isinstance(st, ast.Expr) and isinstance(st.value, ast.Constant))]
@@ -3198,18 +3241,27 @@ class Evaluator:
                     break  # only a straight-line prefix of plain assignments is read
             if idx is None:
                 continue
-            env = dict(b)
-            env[p] = NONE
-            self._in_precomputed = True
-            try:
-                outs = self.exec_block(body[:idx] + [body[idx].body[0]], State(env), f)
-            except Exception:  # noqa: BLE001
-                outs = []
-            finally:
-                self._in_precomputed = False
-            if len(outs) == 1 and outs[0][1] == "fall" and not outs[0][0].conds and outs[0][0].env.get(p) == b[p]:
+            key = (f.qname, p, tuple(sorted((k, v) for k, v in b.items() if k != p)))
+            cache = self.__dict__.setdefault("_precomputed_cache", {})
+            if key not in cache:
+                env = dict(b)
+                env[p] = NONE
+                self._in_precomputed = True
+                try:
+                    outs = self.exec_block(body[:idx] + [body[idx].body[0]], State(env), f)
+                except Exception:  # noqa: BLE001
+                    outs = []
+                finally:
+                    self._in_precomputed = False
+                val = None
+                if len(outs) == 1 and outs[0][1] == "fall" and not outs[0][0].conds:
+                    val = outs[0][0].env.get(p)
+                    if val is not None and (has_unknown(val) or val == NONE):
+                        val = None
+                cache[key] = val
+            if cache[key] is not None:
                 b = dict(b)
-                b[p] = NONE
+                b[p] = cache[key]
         return b
 
     def _fill_const_defaults(self, f: Func, b: dict[str, Term], skip_self: bool) -> dict[str, Term]:
